@@ -16,6 +16,10 @@ package main
 // that family was given on the command line (Changed(...) false for all of
 // them). Calls are identified by callee and string-constant argument.
 //@ func mainImplementation
+// stdout carries the report (or the usage / version text) and nothing else:
+// it is only ever the destination of these writers, and is never handed to
+// a library that could write to it later (C10, C14, C18).
+//@   option sink:stdout fmt.Fprint fmt.Fprintf io.WriteString
 //@   modifies everything
 //@   call 0 Changed("json-version") as chJSON
 //@   call 0 Changed("threshold") as chThreshold
